@@ -16,6 +16,7 @@ from mc.runner import Result
 
 PROPERTY = "C17"
 LEVEL = "model_checking"
+TECHNIQUE = "bounded exhaustive enumeration of run/chunk compositions and helper options with postcondition invariants"
 ENGINE = "E1"
 RULE = (
     "state = (helper, flavour array|xarray, axis position, label array, initial chunking[, forced labels, chunksize, "
